@@ -34,7 +34,7 @@ def have_std() -> bool:
 def header(g=True) -> str:
     h = HEADER
     if have_std():
-        h += 'From PT Require Import Lang.WriteStd Lang.ParseStd.\n'
+        h += 'From PT Require Import Lang.WriteStd Lang.ParseStd Lang.Whitespace Lang.WhitespaceStd.\n'
     return h + ('Require Import GC12.Tables.\n' if g else '')
 
 
@@ -181,6 +181,20 @@ def agree_obligations(chk: Check, tb: dict) -> None:
         chk.violation('argstr:colon-is-a-symbol', "':' (the argstr separator) is a symbol of the Polish parse table; "
                       f'argstr round trip of [a, b] gives {r}', dict(kind='argstr', sentences=sents),
                       found_input=('error' in r or r.get('back') != r.get('orig')))
+    if have_std():
+        wexprs = ['table_ok polish_table', 'table_ok standard_table',
+                  'negb (is_ws standard_table (popen std_opts)) && negb (is_ws standard_table (pclose std_opts))']
+        wans = [a.strip() == 'true' for a in pl.eval_bools(PID, header(), wexprs, name='StatusWs')]
+        for nm, ok in zip(('polish:table_ok', 'standard:table_ok', 'standard:parens-not-whitespace'), wans):
+            chk.obligation(nm, ok)
+            if not ok:
+                chk.violation(f'whitespace:{nm}', f'side condition {nm} of the whitespace-insensitivity theorem fails on the '
+                              'regenerated tables (C13 reports table_ok with a failing input)',
+                              dict(kind='obligation', obligation=nm), found_input=False)
+        if wans[0]:
+            ob.append(WS_POLISH)
+        if wans[1] and wans[2]:
+            ob.append(WS_STD)
     write_if_changed(g / 'Obl.v', '\n'.join(ob))
     rc, out = coqc(g / 'Obl.v')
     if rc:
@@ -216,6 +230,26 @@ Theorem C12_polish_ascii_injective : forall s1 s2 w, roundtrippable s1 = true ->
 Proof. exact (C12_write_polish_injective polish_table polish_ascii_w obl_agree). Qed.
 '''
 
+
+WS_POLISH = '''
+Lemma obl_polish_table_ok : table_ok polish_table = true.
+Proof. vm_compute. reflexivity. Qed.
+Theorem C12_polish_whitespace : forall auto P i,
+  parse_polish (cfg_of polish_table auto) P i = parse_polish (cfg_of polish_table auto) P (strip polish_table i).
+Proof. intros. apply (C12_parse_polish_ws (cfg_of polish_table auto) obl_polish_table_ok). left; reflexivity. Qed.
+'''
+
+WS_STD = '''
+Lemma obl_standard_table_ok : table_ok standard_table = true.
+Proof. vm_compute. reflexivity. Qed.
+Theorem C12_standard_whitespace : forall auto P i,
+  parse_std_opts (cfg_of standard_table auto) std_opts P i =
+  parse_std_opts (cfg_of standard_table auto) std_opts P (strip standard_table i).
+Proof.
+  intros. apply (C12_parse_std_ws (cfg_of standard_table auto) obl_standard_table_ok); [left; reflexivity | |];
+    vm_compute; reflexivity.
+Qed.
+'''
 
 ARG_INSTANCE = '''
 Lemma obl_colon : tlookup polish_table colon = None.
@@ -312,6 +346,7 @@ def _run(chk, args) -> int:
     agree_obligations(chk, tb)
     chk.assumptions = props_assumptions(PID)
     chk.theorems = ['C12_polish_roundtrip', 'C12_write_polish_injective', 'C12_argstr_roundtrip',
+                    'C12_parse_polish_ws', 'C12_parse_std_ws', 'gen: C12_polish_whitespace', 'gen: C12_standard_whitespace',
                     'gen: C12_polish_ascii_roundtrip', 'gen: C12_polish_ascii_injective',
                     'gen: C12_polish_argstr_roundtrip']
     rng = random.Random(args.seed)
